@@ -3,3 +3,8 @@ chk("C02", "exploration",
     "trusts the process-level crash classifier, the H1 dump and encoding/json + encoding/xml as format acceptors; hang = 120 s re-run",
     "runtime crash/termination monitor over child processes + output-format acceptors + H1 dump invariants",
     "DESIGN.md §3 C02")
+chk("C01", "exploration",
+    "differential run: pint strict-mode verdict (real binary, default offline checks) against Prometheus's own rulefmt.Parse on the same bytes, over structure-aware faulty documents and mutations. One direction only (pint passes => Prometheus loads). Sampled.",
+    "Prometheus loader = vendored rulefmt.Parse(content,false) with UTF-8 name validation, not a running server; generator reach",
+    "differential oracle (external acceptor) over executions of the pint binary",
+    "DESIGN.md §3 C01")
